@@ -101,8 +101,10 @@ fn get_server_values_impl(socket: &mut UdpSocket) -> GDResult<HashMap<String, St
     Ok(server_values)
 }
 
-fn extract_players(server_vars: &mut HashMap<String, String>, players_maximum: u32) -> GDResult<Vec<Player>> {
-    let mut players_data: Vec<HashMap<String, String>> = Vec::with_capacity(players_maximum as usize);
+fn extract_players(server_vars: &mut HashMap<String, String>, _players_maximum: u32) -> GDResult<Vec<Player>> {
+    // Don't pre-allocate from the server reported maximum: it is an arbitrary number
+    // from the reply, the vector grows with the players that are actually listed.
+    let mut players_data: Vec<HashMap<String, String>> = Vec::new();
 
     server_vars.retain(|key, value| {
         let split: Vec<&str> = key.split('_').collect();
